@@ -1,5 +1,6 @@
 import DuneVerif.Common.Proto
 import DuneVerif.Model.C01
+import DuneVerif.Model.C01.Store
 /-! line-protocol driver for C01 (format: see the head of harness/cxx_c01.cc).
 Runs the model over `Int` (fields Z and D), Gaussian integers (C) and the prime field with 32003 elements (P). -/
 open DV DV.C01
@@ -536,6 +537,100 @@ def handleAssign (F : Codec K) (op : String) (toks : List String) : String :=
         else showMat F (assignFrom (storedRep A))
   | _ => "bad-op"
 
+/-! ### object histories (`seq`): the store model of `Model/C01/Store.lean` -/
+
+def rkind? : String → Option RKind
+  | "FV" => some .fv | "DV" => some .dv | "SC" => some .sc | "SCC" => some .scc | "FM" => some .fm | "DM" => some .dm
+  | "DG" => some .dg | "SV" => some .sv | "SVC" => some .svc | _ => none
+
+/-- the shapes instantiated by the harness (`sq::declShape`) -/
+def declShapeOk (k : RKind) (r c : Nat) : Bool :=
+  match k with
+  | .fv => r == 1 && 1 ≤ c && c ≤ 3
+  | .dv => r == 1 && 1 ≤ c && c ≤ 4
+  | .sc | .scc | .sv | .svc => r == 1 && c == 1
+  | .fm => (r == 1 && c == 1) || (r == 2 && c == 2)
+  | .dm => 1 ≤ r && r ≤ 3 && 1 ≤ c && c ≤ 3
+  | .dg => r == 2 && c == 2
+  | .tv => false
+
+/-- declarations up to the `:` token; returns the declarations and the tokens after `:` -/
+def parseDecls (F : Codec K) : Nat → List String → List (Decl K) → Option (List (Decl K) × List String)
+  | 0, _, _ => none
+  | _, [], _ => none
+  | fuel+1, tok :: rest, acc =>
+    if tok == ":" then some (acc.reverse, rest) else
+    if tok == "TV" then
+      match rest with
+      | ws :: rest' => do
+        let w ← ws.toNat?
+        let ds := acc.reverse
+        let b ← ds[w]?
+        -- a view of a 2x2 FieldMatrix, a DynamicMatrix, a DiagonalMatrix or a scalar matrix view
+        if !(b.kind == .dm || b.kind == .dg || b.kind == .sv || (b.kind == .fm && b.init.rows == 2)) then none
+        parseDecls F fuel rest' (⟨.tv, zeroMat 0 0, w⟩ :: acc)
+      | _ => none
+    else do
+      let k ← rkind? tok
+      if isVecKind k then
+        match rest with
+        | ns :: l :: rest' => do
+          let n ← ns.toNat?
+          if !declShapeOk k 1 n then none
+          let e ← decList F l
+          if e.length != n then none
+          parseDecls F fuel rest' (⟨k, (Mat.freeze ⟨1, n, fun _ j => e.getD j 0⟩), acc.length⟩ :: acc)
+        | _ => none
+      else
+        match rest with
+        | rs :: cs :: l :: rest' => do
+          let r ← rs.toNat?
+          let c ← cs.toNat?
+          if !declShapeOk k r c then none
+          let e ← decList F l
+          if k == .dg then
+            if e.length != r then none
+            parseDecls F fuel rest' (⟨k, (Mat.freeze ⟨1, r, fun _ j => e.getD j 0⟩), acc.length⟩ :: acc)
+          else
+            if e.length != r * c then none
+            parseDecls F fuel rest' (⟨k, (Mat.freeze ⟨r, c, fun i j => e.getD (i * c + j) 0⟩), acc.length⟩ :: acc)
+        | _ => none
+
+def parseSeqOp (F : Codec K) (toks : List String) : Option (SOp K) :=
+  match toks with
+  | [name, a, b] =>
+    match name with
+    | "asg" => do some (.asg (← a.toNat?) (← b.toNat?))
+    | "add" => do some (.add (← a.toNat?) (← b.toNat?))
+    | "sub" => do some (.sub (← a.toNat?) (← b.toNat?))
+    | "lmul" => do some (.lmul (← a.toNat?) (← b.toNat?))
+    | "rmul" => do some (.rmul (← a.toNat?) (← b.toNat?))
+    | "fill" => do some (.fill (← a.toNat?) (← parseScalar F [b]).1)
+    | "scale" => do some (.scale (← a.toNat?) (← parseScalar F [b]).1)
+    | _ => none
+  | ["axpy", t, k, s] => do some (.axpy (← t.toNat?) (← parseScalar F [k]).1 (← s.toNat?))
+  | [name, a, al, x, y] => do some (.kern (← kname? name) (← a.toNat?) (← parseScalar F [al]).1 (← x.toNat?) (← y.toNat?))
+  | _ => none
+
+def showStore (F : Codec K) (st : SeqState K) : String :=
+  "|".intercalate ((List.range st.size).map fun i =>
+    if st.kind i == .tv then "-" else encList F (matList (st.buf i)))
+
+def handleSeq (F : Codec K) (toks : List String) : String :=
+  match parseDecls F (toks.length + 1) toks [] with
+  | none => "bad-op"
+  | some (ds, rest) =>
+    if ds.isEmpty || ds.length > 8 then "bad-op" else
+    let segs := (" ".intercalate rest).splitOn ";"
+    if segs.length > 40 then "bad-op" else
+    match segs.mapM (fun sg => parseSeqOp F (tokens sg)) with
+    | none => "bad-op"
+    | some ops =>
+      if ops.isEmpty then "bad-op" else
+      match seqTrace F.conj (initState ds) ops with
+      | none => "bad-op"
+      | some sts => ";".intercalate (sts.map (showStore F))
+
 def matVSOps : List String :=
   ["madd", "msub", "mplus", "mminus", "mscale", "mdiv", "mtimes", "mltimes", "mover", "maxpy", "mneg", "meq", "mne"]
 
@@ -543,7 +638,8 @@ def handleK (F : Codec K) (op : String) (toks : List String) : String :=
   match kname? op with
   | some k => handleKernel F k toks
   | none =>
-    if op == "mul" then handleMul F toks
+    if op == "seq" then handleSeq F toks
+    else if op == "mul" then handleMul F toks
     else if ["leftmultiply", "rightmultiply", "leftmultiplyany", "rightmultiplyany", "multmatrix"].contains op then
       handleMulInPlace F op toks
     else if op == "transposed" || op == "multtm" then handleUnaryMat F op toks
